@@ -6,6 +6,7 @@
 #   tools/lanes.sh setup [N]            create N lanes (default 4) and build each once
 #   tools/lanes.sh run [tier] <ids...>  seeded ids (directory names under /verif/seeded, globs allowed); results to stdout
 #   tools/lanes.sh patch <PROP> <patch> [tier]   run one arbitrary patch file against one property's check in lane 0
+#   tools/lanes.sh drills [pattern]     every drill patch against its property, in the lanes
 #   tools/lanes.sh teardown
 set -u
 ROOT="$(cd "$(dirname "$0")/.." && pwd)"
@@ -56,6 +57,23 @@ json.dump(m,open(p,"w"),indent=1)
 PY
         done
         git -C $L/$k/repo checkout -q -- .
+        j=$((j+NL))
+      done ) &
+  done; wait ;;
+drills)
+  # every drill patch against the quick check of its property, in the lanes
+  shift; PAT="${1:-}"
+  DR=(); for d in $ROOT/drills/*${PAT}*.patch; do [ -e "$d" ] && DR+=("$d"); done
+  LANES=($(ls $L)); NL=${#LANES[@]}
+  for k in "${LANES[@]}"; do sync_lane $L/$k; done
+  for i in "${!LANES[@]}"; do
+    ( k=${LANES[$i]}; j=$i
+      while [ $j -lt ${#DR[@]} ]; do
+        P=${DR[$j]}; NAME=$(basename "$P" .patch); PROP=${NAME%%-*}
+        if ! git -C $L/$k/repo apply "$P" 2>/dev/null; then echo "drill $NAME: PATCH DOES NOT APPLY"; j=$((j+NL)); continue; fi
+        OUT=$($L/$k/verif/check $PROP quick 2>&1); RC=$?
+        git -C $L/$k/repo checkout -q -- .
+        if [ $RC -eq 1 ]; then echo "drill $NAME: detected ($(echo "$OUT" | grep -v '^KNOWN-FINDING' | grep -m1 'kind=' | sed 's/ ::.*//' | xargs))"; else echo "drill $NAME: NOT DETECTED (exit $RC)"; fi
         j=$((j+NL))
       done ) &
   done; wait ;;
